@@ -26,6 +26,9 @@ def gen_vec(rng, dom, n, shape=None):
 def triple(rng, dom, n):
     x = gen_vec(rng, dom, n)
     r = rng.random()
+    if dom in ("real", "nonneg") and r > 0.95:
+        x = [0.0] * n                                  # the all-zero vector (identical zero vectors below)
+        r = 0.0
     if r < 0.15:
         y = list(x)                                   # identical
     elif r < 0.30 and dom != "prob":
